@@ -22,7 +22,13 @@ public class IEEE754 {
   public static Value FSub(Value a, Value b) { return enc(dec(a) - dec(b)); }
   public static Value FMul(Value a, Value b) { return enc(dec(a) * dec(b)); }
   public static Value FDiv(Value a, Value b) { return enc(dec(a) / dec(b)); }
-  public static Value FPow(Value a, Value b) { return enc(Math.pow(dec(a), dec(b))); }
+  // C pow (C99 Annex F.9.4.4, called by both reference implementations): pow(1, y) = 1 for EVERY y (also NaN) and
+  // pow(-1, +-inf) = 1; Java's Math.pow returns NaN in these cases, every other special case agrees.
+  public static Value FPow(Value a, Value b) {
+    double x = dec(a), y = dec(b);
+    if (x == 1.0 || (x == -1.0 && Double.isInfinite(y))) return enc(1.0);
+    return enc(Math.pow(x, y));
+  }
   public static Value FMod(Value a, Value b) { double x = dec(a), y = dec(b); return enc(x - Math.floor(x / y) * y); }
   public static Value FModLuau(Value a, Value b) { double x = dec(a), y = dec(b); double r = x % y; if (r != 0 && ((r < 0) != (y < 0))) r += y; return enc(r); }
   public static Value FFloor(Value a) { return enc(Math.floor(dec(a))); }
